@@ -244,6 +244,14 @@ pub fn case(idx: u64, seed: u64, p: &Params, o: &mut CaseOut) {
                     2 => ma2 = gen::sparsify(&mut r, &ma),
                     _ => {}
                 }
+                if r.chance(0.12) {
+                    // the largest legal vertex id, in one operand or in both
+                    ma2 = gen::with_max_id(&ma2);
+                    if r.chance(0.6) {
+                        mb = gen::with_max_id(&mb);
+                    }
+                    o.bump("vertex_id_usize::MAX");
+                }
                 ma2.fingerprint(&mut fp);
                 mb.fingerprint(&mut fp);
                 let (a, b) = (build_map_any(&ma2), build_map_any(&mb));
